@@ -2,7 +2,7 @@
 import copy
 
 ID = "C10"
-HARNESS_TEST = "TestC10"
+HARNESS_TEST = "TestC10.*"
 COQ_MODEL = ["C10/Check.v"]
 COQ_PROOF_DEPS = ["C10/Proofs.v"]
 COQ_OBLIG = ["C10/Property.v"]
@@ -10,11 +10,14 @@ CASES_HEADER = "Require Import Nib.C10.Model Nib.C10.Spec Nib.C10.Check."
 CASE_TYPE = "case"
 MISMATCH_FN = "mismatch"
 VIOLATES_FN = "violates"
-RULE = ("case = one real oracle.EndBlocker call on the x/oracle keeper fixture after a generated staking situation "
+RULE = ("two kinds of cases. (1) single: one real oracle.EndBlocker call on the x/oracle keeper fixture after a generated staking situation "
         "(1-12 validators, powers 0/1/ties/huge, fractional tokens, unbonded late joiners, undelegated-after-bonding, "
         "jailed, MaxValidators cut-off), generated Params (Validate-accepted), whitelist, Votes store (positive / "
         "abstain / missing / strangers / non-whitelisted / duplicate tuples / huge rates) and pre-existing rates around "
-        "the expiry boundary; non-trivial = a period end where at least one pair has votes of eligible validators "
+        "the expiry boundary. (2) history: 3-10 steps on ONE keeper (fixed staking/params/whitelist): validators submit or "
+        "overwrite aggregate votes and prevotes, then oracle.EndBlocker at the next vote-period end or next block; periods "
+        "with full / sub-quorum / no participation follow each other; observed per step: rates, events, Votes store, "
+        "Prevotes store. non-trivial (history) = has a period end with votes (with or without quorum); non-trivial (single) = a period end where at least one pair has votes of eligible validators "
         "(threshold + MinVoters + median logic runs) or a stored rate is at its expiry boundary; distinct = distinct input")
 ASSUMPTIONS = [
     "staking state (power-store order, bonded flags, consensus power, total bonded tokens) is read back through the "
@@ -47,7 +50,76 @@ def _state(inp, obs):
     return "(mkState %s %d%%nat %s %s %s %s %s)" % (vals, pre["maxv"], _z(pre["btok"]), _z(pre["pr"]), wl, votes, rates)
 
 
+def _is_hist(rec_or_inp):
+    inp = rec_or_inp.get("input", rec_or_inp)
+    return inp.get("kind") == "hist"
+
+
+def _votes(vs):
+    return "[%s]" % "; ".join(
+        "mkAVote %d%%nat [%s]" % (v["voter"], "; ".join("(%d%%nat, %s)" % (t["p"], _z(t["r"])) for t in v["t"]))
+        for v in vs or [])
+
+
+def _rates(rs):
+    return "[%s]" % "; ".join("mkRate %d%%nat %s %s" % (r["p"], _z(r["r"]), _z(r["c"])) for r in rs or [])
+
+
+def _hist_case(rec):
+    inp, obs = rec["input"], rec["obs"]
+    p = inp["params"]
+    params = "(mkParams %s %s %s %s %s)" % (_z(p["vp"]), _z(p["thr"]), _z(p["minv"]), _z(p["exp"]), _z(p["band"]))
+    pre = obs["pre"]
+    vals = "[%s]" % "; ".join("mkVal %d%%nat %s %s" % (v["id"], _b(v["bonded"]), _z(v["power"])) for v in pre["order"])
+    env = "(mkHEnv %s %d%%nat %s %s [%s])" % (vals, pre["maxv"], _z(pre["btok"]), _z(pre["pr"]),
+                                             "; ".join("%d%%nat" % w for w in inp["wl"]))
+    steps = []
+    for st, so in zip(inp["steps"], obs["steps"]):
+        x = "(mkHStep %s [%s] %s)" % (_votes(st["votes"]),
+                                      "; ".join("(%d%%nat, %s)" % (pv["voter"], _z(pv["submit"])) for pv in st["prevotes"] or []),
+                                      _z(so["h"]))
+        o = "(mkHObs %s %s [%s] %s [%s])" % (
+            _b(so["panic"]), _rates(so["rates"]),
+            "; ".join("(%d%%nat, %s)" % (e["p"], _z(e["r"])) for e in so["events"] or []),
+            _votes(so["votes"]),
+            "; ".join("(%d%%nat, %s)" % (pv["voter"], _z(pv["submit"])) for pv in so["prevotes"] or []))
+        steps.append("(%s, %s)" % (x, o))
+    return "(CHist %s %s %s [%s])" % (params, env, _rates(inp["rates"]), ";\n    ".join(steps))
+
+
+def _hist_flags(rec):
+    inp, obs = rec["input"], rec["obs"]
+    vp = inp["params"]["vp"]
+    fl = set()
+    prev_noquorum_with_votes = False
+    pending = False
+    for st, so in zip(inp["steps"], obs["steps"]):
+        end = (so["h"] + 1) % vp == 0
+        pending = pending or bool(st["votes"])
+        if so["panic"]:
+            fl.add("panic")
+            break
+        if end:
+            if so["events"]:
+                fl.add("period-with-quorum")
+                if prev_noquorum_with_votes:
+                    fl.add("quorum-after-no-quorum-period")
+            elif pending:
+                fl.add("period-without-quorum-but-votes")
+            else:
+                fl.add("silent-period")
+            prev_noquorum_with_votes = (not so["events"]) and pending
+            pending = False
+        else:
+            fl.add("mid-period-block")
+        if so["prevotes"]:
+            fl.add("prevotes-kept")
+    return fl
+
+
 def to_coq_case(rec):
+    if _is_hist(rec):
+        return _hist_case(rec)
     inp, obs = rec["input"], rec["obs"]
     p = inp["params"]
     params = "(mkParams %s %s %s %s %s)" % (_z(p["vp"]), _z(p["thr"]), _z(p["minv"]), _z(p["exp"]), _z(p["band"]))
@@ -78,6 +150,9 @@ def _eligible(rec):
 
 def nontrivial(rec):
     inp = rec["input"]
+    if _is_hist(rec):
+        fl = _hist_flags(rec)
+        return "period-without-quorum-but-votes" in fl or "period-with-quorum" in fl
     if not _period_end(inp):
         return False
     el = _eligible(rec)
@@ -89,7 +164,9 @@ def nontrivial(rec):
 
 def classify(rec):
     inp, obs = rec["input"], rec["obs"]
-    ks = ["validators=%d" % len(inp["vals"]), "period_end=%s" % _period_end(inp)]
+    if _is_hist(rec):
+        return ["kind:history", "hist-steps=%d" % len(inp["steps"])] + ["hist:" + f for f in sorted(_hist_flags(rec))]
+    ks = ["kind:single", "validators=%d" % len(inp["vals"]), "period_end=%s" % _period_end(inp)]
     ks.append("outcome:" + ("panic" if obs["panic"] else "events=%d" % min(len(obs["events"]), 4)))
     el = _eligible(rec)
     pre = obs["pre"]
@@ -127,17 +204,47 @@ def describe(rec):
 
 def signature(rec):
     inp, obs = rec["input"], rec["obs"]
+    if _is_hist(rec):
+        return {"kind": "history", "flags": sorted(_hist_flags(rec))}
     return {"kind": "panic" if obs["panic"] else "price-update",
             "period_end": _period_end(inp),
             "abstain": any(int(t["r"]) <= 0 for v in inp["votes"] for t in v["t"])}
 
 
 def input_size(inp):
+    if _is_hist(inp):
+        return 10 * len(inp["steps"]) + sum(len(v["t"]) + 2 for st in inp["steps"] for v in st["votes"] or []) \
+            + sum(len(st["prevotes"] or []) for st in inp["steps"]) + 5 * len(inp["vals"])
     return (len(inp["vals"]) * 10 + sum(len(v["t"]) + 2 for v in inp["votes"]) + len(inp["rates"]) * 2 + len(inp["wl"])
             + sum(len(v["tok"]) for v in inp["vals"]))
 
 
+def _shrink_hist(inp):
+    out = []
+    steps = inp["steps"]
+    for k in range(len(steps) - 1, 0, -1):
+        c = copy.deepcopy(inp)
+        c["steps"] = c["steps"][:k]
+        out.append(c)
+    for i in range(len(steps)):
+        if len(steps) > 1:
+            c = copy.deepcopy(inp)
+            c["steps"].pop(i)
+            out.append(c)
+        if steps[i]["prevotes"]:
+            c = copy.deepcopy(inp)
+            c["steps"][i]["prevotes"] = []
+            out.append(c)
+        for j in range(len(steps[i]["votes"] or [])):
+            c = copy.deepcopy(inp)
+            c["steps"][i]["votes"].pop(j)
+            out.append(c)
+    return out
+
+
 def shrink_candidates(inp):
+    if _is_hist(inp):
+        return _shrink_hist(inp)
     out = []
 
     def variant(f):
